@@ -78,6 +78,18 @@ def opPrint (args : List String) : String :=
     | _, _, _, _, _, _, _ => "err\tbad-op"
   | _ => "err\tbad-op"
 
+/-- `amt.show <dcDefault> <symbol hex> <style> <commodity precision> <num/den> <amount prec> <keep>`:
+    value_t::print of the amount, and whether amount_t::is_zero holds (the row filter of reg/bal). -/
+def opShow (args : List String) : String :=
+  match args with
+  | [dcd, sym, st, cp, q, ap, keep] =>
+    match parseBool? dcd, parseHex? sym, parseStyle? st, cp.toNat?, parseRat? q, ap.toNat?, parseBool? keep with
+    | some dcd, some sym, some st, some cp, some q, some ap, some keep =>
+      "ok\t" ++ textToHex (showAmount dcd sym { style := st, prec := cp } q ap keep) ++ "\t" ++
+        boolStr (isZeroAmt (sym ≠ []) cp q ap keep)
+    | _, _, _, _, _, _, _ => "err\tbad-op"
+  | _ => "err\tbad-op"
+
 def Parsed.render (p : Parsed) : String :=
   ratStr p.q ++ "\t" ++ toString p.prec ++ "\t" ++ textToHex p.sym ++ "\t" ++ p.flags.render
     ++ "\t" ++ textToHex p.rest
@@ -162,7 +174,7 @@ namespace Ledger
 
 def AmountTextProto.ops : List (String × (List String → String)) :=
   [("amt.roundto", AmountText.opRoundTo), ("amt.fmt", AmountText.opFmt),
-   ("amt.print", AmountText.opPrint), ("amt.parse", AmountText.opParse),
+   ("amt.print", AmountText.opPrint), ("amt.show", AmountText.opShow), ("amt.parse", AmountText.opParse),
    ("amt.learn", AmountText.opLearn)]
 
 end Ledger
